@@ -157,7 +157,7 @@ func (r *cpuRig) unitKey(pre []int, ob []int, placed [][]int, keyAfter int) []an
 	if bus == nil {
 		bus = [][]int{}
 	}
-	return []any{1, pre, ob, bus, post, n, runState(m.CPU.VerifGet())}
+	return []any{1, pre, ob, bus, post, n, runState(m.CPU.VerifGet()), keyAfter}
 }
 
 // runState: 1 halted, 2 stopped, 4 halt bug armed - what decides whether the CPU goes on fetching
@@ -879,7 +879,11 @@ func cpuRerun(c *Ctx) {
 				}
 				pre, ob := trace.Ints(e[1]), trace.Ints(e[2])
 				// instruction bytes last, so that they win
-				out.Ev = append(out.Ev, rig.unit(pre, ob, placed))
+				key := -1
+				if len(e) > 7 {
+					key = trace.Int(e[7])
+				}
+				out.Ev = append(out.Ev, rig.unitKey(pre, ob, placed, key))
 			case 2:
 				var sched [][]any
 				for _, p := range e[3].([]any) {
